@@ -152,7 +152,7 @@ theorem C04_admission_step (conv una cwnd now : U32) (s : Seg) (rest buf : List 
     admitSegs conv una cwnd now (s :: rest) buf nxt c =
       if itimediff nxt (una + cwnd) ≥ 0 then ⟨s :: rest, buf, nxt, c⟩
       else admitSegs conv una cwnd now rest
-        (buf ++ [{ s with conv := conv, cmd := BitVec.ofNat 8 IKCP_CMD_PUSH, sn := nxt, resendts := now }])
+        (buf ++ [{ s with conv := conv, cmd := BitVec.ofNat 8 IKCP_CMD_PUSH, sn := nxt, ts := now, resendts := now }])
         (nxt + 1) (c + 1) := rfl
 
 /-- … and under the send invariant that test IS "in flight `< cwnd_eff`" (unsigned), where
